@@ -9,6 +9,7 @@ and an enclosing class) and answers the queries independently of model and imple
 import valgen
 
 CLASS_NAMES = ['A', 'B', 'C', 'D', 'E', 'Base', 'Veh']
+CHAIN_NAMES = ['B0', 'B1', 'L', 'L2']
 FIELD_NAMES = ['x', 'y', 'z', 'arr', 'txt', 'list']
 
 
@@ -274,12 +275,36 @@ class CfgGen:
             self.note('class-with-base')
         return ('class', self.class_name(), base, self.body(depth))
 
+    def append_chain(self):
+        """an enclosing class and an inheritance chain of nested classes in which the array a `+=` extends is
+        defined at some of the levels (enclosing class, base, base of the base): += must take the nearest
+        *inherited* definition, never the enclosing class's"""
+        r = self.r
+        self.note('append-chain')
+        fld = r.choice(['arr', 'list'])
+
+        def arrdef(k):
+            return [('array', fld, ('arr', [('dec', str(k))]))] if r.chance(1, 2) else []
+        outer = self.class_name()
+        body = arrdef(9)
+        body.append(('class', 'B0', None, arrdef(1) + ([('field', 'x', ('dec', '1'))] if r.chance(1, 2) else [])))
+        body.append(('class', 'B1', 'B0', arrdef(2)))
+        leaf_body = [('append', fld, ('arr', [('dec', '3')]))]
+        if r.chance(1, 3):
+            leaf_body.append(('append', fld, ('arr', [('dec', '4')])))
+        body.append(('class', 'L', r.choice(['B1', 'B1', 'B0']), leaf_body))
+        if r.chance(1, 2):
+            body.append(('class', 'L2', 'L', [('append', fld, ('arr', [('dec', '5')]))]))
+        return ('class', outer, None, body)
+
     def load(self):
         r = self.r
         out = []
         for _ in range(1 + r.below(5)):
-            k = r.weighted([('class', 8), ('classdef', 1), ('delete', 1)])
-            if k == 'class':
+            k = r.weighted([('class', 8), ('classdef', 1), ('delete', 1), ('chain', 2)])
+            if k == 'chain':
+                out.append(self.append_chain())
+            elif k == 'class':
                 out.append(self.klass(1))
             elif k == 'classdef':
                 out.append(('classdef', self.class_name(), self.class_name() if r.chance(1, 2) else None))
